@@ -35,6 +35,9 @@ def rowConst (row : List (List Nat)) : Bool := row.all fun ids => ids.length == 
 def lookup (tbl : List (String × List (List Nat))) (s : String) : Option (List (List Nat)) :=
   (tbl.find? (·.1 == s)).map (·.2)
 
+def lookup' (tbl : List (String × List Nat)) (s : String) : Option (List Nat) :=
+  (tbl.find? (·.1 == s)).map (·.2)
+
 /-- **Table theorem** (re-checked against the live classes on every run): every shared symbol has a
 row, and in it all four parser classes use the very same function objects for select / evaluate /
 select_with_focus / nud / led and equal lbp / rbp / label / reverse_axis. -/
@@ -137,7 +140,7 @@ def usesOnlyShared (e : Expr) : Bool := (symbolsOf e).all (sharedSymbols.contain
 of the token tree, exactly the function objects (select, evaluate, select_with_focus, nud, led) and
 attribute values (lbp, rbp, label, reverse_axis) that the 1.0 parser binds.  Hence — the token
 trees being equal (compared by the harness on every generated expression) and Python being
-deterministic — the four versions compute the same node list; combined with `path_eq_spec_partial`
+deterministic — the four versions compute the same node list; combined with `path_eq_spec`
 the model's `eval` describes all four. -/
 theorem versions_dispatch_same (v : Version) (e : Expr) (h : usesOnlyShared e = true) :
     (symbolsOf e).map (dispatch v) = (symbolsOf e).map (dispatch .v10) := by
@@ -167,8 +170,26 @@ theorem attribute_axis_and_paren_equivalent :
       ["attribute20-axis-branch-is-the-1.0-loop", "attribute-select-is-the-same-in-2.0-3.0-3.1",
        "attribute20-select_with_focus-is-the-base-forward-one", "attribute10-is-a-forward-axis",
        "paren10-select-passes-through", "paren20-select-passes-through-when-non-empty",
-       "paren30-select-is-the-generic-select-over-evaluate", "paren31-is-the-3.0-object"] ∧
+       "paren30-select-is-the-generic-select-over-evaluate", "paren31-is-the-3.0-object",
+       "name-prefixed-name-and-wildcard-evaluate-are-xlist-of-select", "context-item-evaluate-returns-the-item",
+       "parent-shortcut-evaluate-returns-first-parent-or-empty", "paren10-evaluate-is-operand-evaluate",
+       "paren20-evaluate-is-operand-evaluate", "paren30-evaluate-unwraps-a-one-item-list-of-the-operand-evaluate",
+       "generic-select-expands-evaluate", "generic-evaluate-is-xlist-of-select"] ∧
     EPV.Gen.C01.facts.all (·.2) = true := by decide
+
+/-- tokens that define both `evaluate` and `select` themselves (modelled case by case in
+`EPV/Model/AxesEvaluate.lean`; their sources are pinned by the facts above) -/
+def bothCustom : List String := ["(", "(name)", ":", "*", ".", ".."]
+
+/-- **evaluate_select_table.**  For every token symbol of the fragment and every parser class, `evaluate` is
+the generic `xlist(self.select(context))` or `select` is the generic expansion of `evaluate` — except for the
+six tokens of `bothCustom`; and the 3.0 / 3.1 `(` (but not the 1.0 / 2.0 one) uses the generic `select`.
+This is what `EPV.XP.evaluate` assumes (`toPy (eval …)` for all other tokens). -/
+theorem evaluate_select_table :
+    EPV.Gen.C01.evalSelect.all (fun row =>
+      row.2.length == 4 && (bothCustom.contains row.1 || row.2.all (· != 0))) = true ∧
+    lookup' EPV.Gen.C01.evalSelect "(" = some [0, 0, 1, 1] ∧
+    (bothCustom.all fun s => (lookup' EPV.Gen.C01.evalSelect s).isSome) = true := by decide
 
 /-- the model numbers `attribute::t[…]` forward, as both token classes do -/
 theorem attribute_swf_forward (t : Test) (ab : Bool) : swfRev (.step .attribute t ab) = false := rfl
